@@ -920,20 +920,26 @@ Section CompositeRT.
     | [] => []
     | (isgroup, ms) :: r =>
       if isgroup then
-        match enc_group encT res ms data with
-        | Ok bs => (if (0 <? length bs)%nat then norm_members ms data else []) ++ norm_adds r data
-        | Err _ => []
-        end
+        if group_missing_first encT res ms data then []
+        else
+          match enc_group encT res ms data with
+          | Ok bs => (if (0 <? length bs)%nat then norm_members ms data else []) ++ norm_adds r data
+          | Err _ => []
+          end
       else
         match ms with
         | [m] =>
-          match enc_member encT res m data true with
-          | Ok _ =>
-            (match lookup (m_name m) data with
-             | Some v => [(m_name m, normT (m_ty m) v)]
-             | None => []
-             end) ++ norm_adds r data
-          | Err _ => []
+          match lookup (m_name m) data, m_opt m with
+          | None, Mandatory => []
+          | found, _ =>
+            match enc_member encT res m data true with
+            | Ok _ =>
+              (match found with
+               | Some v => [(m_name m, normT (m_ty m) v)]
+               | None => []
+               end) ++ norm_adds r data
+            | Err _ => []
+            end
           end
         | _ => []
         end
@@ -982,78 +988,130 @@ Section CompositeRT.
     unfold rbind at 1. rewrite skip_pad. reflexivity.
   Qed.
 
-  Lemma dec_adds_rt adds data : forall processed body k rest,
-    enc_adds encT res adds data = Ok processed ->
-    enc_open_types processed = Ok body ->
-    dec_adds decT (map is_some processed ++ repeat false k) adds (body ++ rest) = Ok (norm_adds adds data, rest).
+  (** an open type of an addition the decoder does not know is skipped by its length *)
+  Lemma open_type_skip (bs : bits) tail :
+    (Z.of_nat (length (pad8 bs) / 8) <? 16384) = true ->
+    forall (k : list (string * value) -> reader (list (string * value))),
+    (do* open_len <- read_len;
+     do* (fs, consumed) <- with_consumed (dec_one_addition decT [] open_len);
+     do* _ <- (let al := (consumed mod 8)%nat in if (al =? 0)%nat then rret tt else skip_bits (8 - al));
+     k fs) (enc_len_short (Z.of_nat (length (pad8 bs) / 8)) ++ pad8 bs ++ tail) = k [] tail.
   Proof.
-    induction adds as [|[isgroup ms] adds IH]; intros processed body k rest; cbn [enc_adds norm_adds].
-    - intros H Hb. assert (processed = []) by congruence. subst. cbn in Hb.
-      assert (body = []) by congruence. subst. cbn [map app]. apply dec_adds_all_false.
-    - destruct isgroup.
+    intros Hl k. unfold rbind at 1. rewrite read_len_short by lia.
+    destruct (pad8_length bs) as (q & Hq & Hle & Hdiv).
+    unfold rbind at 1. unfold with_consumed. cbn [dec_one_addition]. unfold rbind at 1.
+    assert (Hs : skip_bits (Z.to_nat (8 * Z.of_nat (length (pad8 bs) / 8))) (pad8 bs ++ tail) = Ok (tt, tail)).
+    { unfold skip_bits. rewrite Hdiv. replace (Z.to_nat (8 * Z.of_nat q)) with (length (pad8 bs)) by lia.
+      rewrite app_length. destruct (length (pad8 bs) + length tail <? length (pad8 bs))%nat eqn:E; [lia|].
+      rewrite skipn_app, Nat.sub_diag. cbn [skipn]. rewrite skipn_all. reflexivity. }
+    rewrite Hs. unfold rret at 1. rewrite app_length.
+    replace (length (pad8 bs) + length tail - length tail)%nat with (length (pad8 bs)) by lia.
+    unfold rbind at 1. rewrite Hq. replace ((8 * q) mod 8)%nat with 0%nat by (rewrite Nat.mul_comm, Nat.mod_mul; lia).
+    cbn [Nat.eqb]. reflexivity.
+  Qed.
+
+  Lemma dec_adds_skip_all processed : forall body k rest,
+    enc_open_types processed = Ok body ->
+    dec_adds decT (map is_some processed ++ repeat false k) [] (body ++ rest) = Ok ([], rest).
+  Proof.
+    induction processed as [|[bs|] processed IH]; intros body k rest; cbn [enc_open_types map app is_some].
+    - intros H. assert (body = []) by congruence. subst. apply dec_adds_all_false.
+    - unfold enc_len_single. destruct (Z.of_nat (length (pad8 bs) / 8) <? 16384) eqn:El; [|discriminate]. cbn [bind].
+      destruct (enc_open_types processed) as [more|] eqn:Em; [|discriminate]. cbn [bind]. intros H.
+      assert (body = enc_len_short (Z.of_nat (length (pad8 bs) / 8)) ++ pad8 bs ++ more) by congruence. subst body.
+      cbn [dec_adds negb tl]. rewrite <- !app_assoc. rewrite (open_type_skip bs _ El).
+      unfold rbind. rewrite (IH _ _ _ eq_refl). reflexivity.
+    - intros H. cbn [dec_adds negb tl]. apply (IH _ _ _ H).
+  Qed.
+
+  (** One present addition: its open type is read back and the decoder resynchronises. *)
+  Lemma dec_adds_present (bs : bits) (fields : list (string * value)) rest_p adds_dec more k rest
+        (tailres : list (string * value)) :
+    (forall r, dec_one_addition decT adds_dec (Z.of_nat (length (pad8 bs) / 8)) (bs ++ r) = Ok (fields, r)) ->
+    enc_open_types (Some bs :: rest_p) = Ok more ->
+    (forall body', enc_open_types rest_p = Ok body' ->
+       dec_adds decT (map is_some rest_p ++ repeat false k) (tl adds_dec) (body' ++ rest) = Ok (tailres, rest)) ->
+    dec_adds decT (map is_some (Some bs :: rest_p) ++ repeat false k) adds_dec (more ++ rest)
+    = Ok (fields ++ tailres, rest).
+  Proof.
+    intros Hone Hm Htail. cbn [enc_open_types] in Hm. unfold enc_len_single in Hm.
+    destruct (Z.of_nat (length (pad8 bs) / 8) <? 16384) eqn:El; [|discriminate]. cbn [bind] in Hm.
+    destruct (enc_open_types rest_p) as [body'|] eqn:Em; [|discriminate]. cbn [bind] in Hm.
+    assert (more = enc_len_short (Z.of_nat (length (pad8 bs) / 8)) ++ pad8 bs ++ body') by congruence. subst more.
+    cbn [map app is_some dec_adds negb]. rewrite <- !app_assoc.
+    rewrite (open_type_rt bs fields adds_dec _ Hone El).
+    unfold rbind. rewrite (Htail _ eq_refl). reflexivity.
+  Qed.
+
+  (** Encoder knows [common ++ extra_enc], decoder knows [common ++ extra_dec],
+      one of the two extras is empty: the decoder returns exactly the additions
+      of [common] that are present, and resynchronises after the open types. *)
+  Lemma dec_adds_compat common data : forall extra_enc extra_dec processed body k rest,
+    extra_enc = [] \/ extra_dec = [] ->
+    enc_adds encT res (common ++ extra_enc) data = Ok processed ->
+    enc_open_types processed = Ok body ->
+    dec_adds decT (map is_some processed ++ repeat false k) (common ++ extra_dec) (body ++ rest)
+    = Ok (norm_adds common data, rest).
+  Proof.
+    induction common as [|[isgroup ms] common IH]; intros extra_enc extra_dec processed body k rest Hx.
+    - cbn [app norm_adds]. destruct Hx as [-> | ->].
+      + cbn [enc_adds]. intros H Hb. assert (processed = []) by congruence. subst. cbn in Hb.
+        assert (body = []) by congruence. subst. cbn [map app]. apply dec_adds_all_false.
+      + intros _ Hb. apply dec_adds_skip_all. exact Hb.
+    - cbn [app enc_adds norm_adds]. destruct isgroup.
       + (* addition group *)
-        destruct (enc_group encT res ms data) as [bs|x] eqn:Eg; cbn [bind].
-        * destruct (enc_adds encT res adds data) as [rest_p|] eqn:Er; [|discriminate]. cbn [bind]. intros H.
-          rewrite Bool.orb_false_r in H.
-          destruct (0 <? length bs)%nat eqn:Epos.
-          -- assert (processed = Some bs :: rest_p) by congruence. subst processed. cbn [enc_open_types].
-             unfold enc_len_single.
-             destruct (Z.of_nat (length (pad8 bs) / 8) <? 16384) eqn:El; [|discriminate]. cbn [bind].
-             destruct (enc_open_types rest_p) as [more|] eqn:Em; [|discriminate]. cbn [bind]. intros Hb.
-             assert (body = enc_len_short (Z.of_nat (length (pad8 bs) / 8)) ++ pad8 bs ++ more) by congruence.
-             subst body. cbn [map app is_some dec_adds negb tl]. rewrite <- !app_assoc.
-             rewrite (open_type_rt bs (norm_members ms data)); [| |exact El].
-             ++ unfold rbind. rewrite (IH _ _ _ _ eq_refl Em). reflexivity.
-             ++ intros r. cbn [dec_one_addition]. apply dec_root_rt. apply enc_group_present; [exact Eg|].
-                apply Nat.ltb_lt. exact Epos.
-          -- assert (processed = None :: rest_p) by congruence. subst processed. cbn [enc_open_types].
-             intros Hb. cbn [map app is_some dec_adds negb tl]. cbn [app]. apply (IH _ _ _ _ eq_refl Hb).
-        * destruct x; try discriminate. intros H. assert (processed = []) by congruence. subst.
-          cbn [enc_open_types]. intros Hb. assert (body = []) by congruence. subst.
-          cbn [map app]. apply dec_adds_all_false.
+        destruct (group_missing_first encT res ms data).
+        { intros H Hb. assert (processed = []) by congruence. subst. cbn in Hb.
+          assert (body = []) by congruence. subst. cbn [map app]. apply dec_adds_all_false. }
+        destruct (enc_group encT res ms data) as [bs|x] eqn:Eg; cbn [bind]; [|discriminate].
+        destruct (enc_adds encT res (common ++ extra_enc) data) as [rest_p|] eqn:Er; [|discriminate]. cbn [bind].
+        intros H. destruct (0 <? length bs)%nat eqn:Epos.
+        * assert (processed = Some bs :: rest_p) by congruence. subst processed. intros Hb.
+          apply (dec_adds_present bs (norm_members ms data) rest_p _ body k rest (norm_adds common data)); [|exact Hb|].
+          -- intros r. cbn [dec_one_addition]. apply dec_root_rt. apply enc_group_present; [exact Eg|].
+             apply Nat.ltb_lt. exact Epos.
+          -- intros body' Hb'. cbn [tl]. apply (IH _ _ _ _ _ _ Hx Er Hb').
+        * assert (processed = None :: rest_p) by congruence. subst processed. cbn [enc_open_types].
+          intros Hb. cbn [map app is_some dec_adds negb tl]. cbn [app]. apply (IH _ _ _ _ _ _ Hx Er Hb).
       + (* single addition *)
-        destruct ms as [|m [|m' ms']].
-        * cbn [bind]. discriminate.
-        * unfold enc_member at 1. destruct (lookup (m_name m) data) as [v|] eqn:Elk.
-          -- (* present *)
-             assert (Henc : enc_member encT res m data true = encT (m_ty m) v).
-             { unfold enc_member. rewrite Elk. destruct (m_opt m); try reflexivity. rewrite Bool.orb_true_r. reflexivity. }
-             assert (Hsame : (match m_opt m with
-                              | Default d => if negb (is_default_value (res (m_ty m)) v d) || true then encT (m_ty m) v else Ok []
-                              | _ => encT (m_ty m) v end) = encT (m_ty m) v).
-             { destruct (m_opt m); try reflexivity. rewrite Bool.orb_true_r. reflexivity. }
-             rewrite Hsame, Henc. destruct (encT (m_ty m) v) as [bs|x] eqn:Eb; cbn [bind].
-             ++ destruct (enc_adds encT res adds data) as [rest_p|] eqn:Er; [|discriminate]. cbn [bind]. intros H.
-                rewrite Bool.orb_true_r in H.
-                assert (processed = Some bs :: rest_p) by congruence. subst processed. cbn [enc_open_types].
-                unfold enc_len_single.
-                destruct (Z.of_nat (length (pad8 bs) / 8) <? 16384) eqn:El; [|discriminate]. cbn [bind].
-                destruct (enc_open_types rest_p) as [more|] eqn:Em; [|discriminate]. cbn [bind]. intros Hb.
-                assert (body = enc_len_short (Z.of_nat (length (pad8 bs) / 8)) ++ pad8 bs ++ more) by congruence.
-                subst body. cbn [map app is_some dec_adds negb tl]. rewrite <- !app_assoc.
-                rewrite (open_type_rt bs [(m_name m, normT (m_ty m) v)]); [| |exact El].
-                ** unfold rbind. rewrite (IH _ _ _ _ eq_refl Em). reflexivity.
-                ** intros r. cbn [dec_one_addition]. unfold rbind. rewrite (HT _ _ _ Eb). reflexivity.
-             ++ destruct x; try discriminate. intros H. assert (processed = []) by congruence. subst.
-                cbn [enc_open_types]. intros Hb. assert (body = []) by congruence. subst.
-                cbn [map app]. apply dec_adds_all_false.
-          -- (* absent *)
-             assert (Henc : enc_member encT res m data true =
-                            match m_opt m with Mandatory => Err EEncode | _ => Ok [] end).
-             { unfold enc_member. rewrite Elk. reflexivity. }
-             rewrite Henc. destruct (m_opt m) eqn:Eo; cbn [bind].
-             ++ intros H. assert (processed = []) by congruence. subst.
-                cbn [enc_open_types]. intros Hb. assert (body = []) by congruence. subst.
-                cbn [map app]. apply dec_adds_all_false.
-             ++ destruct (enc_adds encT res adds data) as [rest_p|] eqn:Er; [|discriminate]. cbn [bind]. intros H.
-                cbn [length Nat.ltb Nat.leb orb] in H.
-                assert (processed = None :: rest_p) by congruence. subst processed. cbn [enc_open_types].
-                intros Hb. cbn [map app is_some dec_adds negb tl]. apply (IH _ _ _ _ eq_refl Hb).
-             ++ destruct (enc_adds encT res adds data) as [rest_p|] eqn:Er; [|discriminate]. cbn [bind]. intros H.
-                cbn [length Nat.ltb Nat.leb orb] in H.
-                assert (processed = None :: rest_p) by congruence. subst processed. cbn [enc_open_types].
-                intros Hb. cbn [map app is_some dec_adds negb tl]. apply (IH _ _ _ _ eq_refl Hb).
-        * cbn [bind]. discriminate.
+        destruct ms as [|m [|m' ms']]; [discriminate| |discriminate].
+        destruct (lookup (m_name m) data) as [v|] eqn:Elk.
+        * (* present *)
+          assert (Henc : enc_member encT res m data true = encT (m_ty m) v).
+          { unfold enc_member. rewrite Elk. destruct (m_opt m); try reflexivity. rewrite Bool.orb_true_r. reflexivity. }
+          assert (Hgoal : (let* bs := enc_member encT res m data true in
+                           let* rest0 := enc_adds encT res (common ++ extra_enc) data in
+                           Ok ((if (0 <? length bs)%nat || true then Some bs else None) :: rest0)) = Ok processed ->
+                          enc_open_types processed = Ok body ->
+                          dec_adds decT (map is_some processed ++ repeat false k) ((false, [m]) :: common ++ extra_dec) (body ++ rest) =
+                          Ok (match enc_member encT res m data true with
+                              | Ok _ => [(m_name m, normT (m_ty m) v)] ++ norm_adds common data
+                              | Err _ => []
+                              end, rest)).
+          { rewrite Henc. destruct (encT (m_ty m) v) as [bs|x] eqn:Eb; cbn [bind]; [|discriminate].
+            destruct (enc_adds encT res (common ++ extra_enc) data) as [rest_p|] eqn:Er; [|discriminate]. cbn [bind].
+            intros H. rewrite Bool.orb_true_r in H.
+            assert (processed = Some bs :: rest_p) by congruence. subst processed. intros Hb.
+            apply (dec_adds_present bs [(m_name m, normT (m_ty m) v)] rest_p _ body k rest (norm_adds common data)); [|exact Hb|].
+            - intros r. cbn [dec_one_addition]. unfold rbind. rewrite (HT _ _ _ Eb). reflexivity.
+            - intros body' Hb'. cbn [tl]. apply (IH _ _ _ _ _ _ Hx Er Hb'). }
+          destruct (m_opt m); exact Hgoal.
+        * (* absent *)
+          destruct (m_opt m) eqn:Eo.
+          -- intros H Hb. assert (processed = []) by congruence. subst. cbn in Hb.
+             assert (body = []) by congruence. subst. cbn [map app]. apply dec_adds_all_false.
+          -- assert (Henc : enc_member encT res m data true = Ok []) by (unfold enc_member; rewrite Elk, Eo; reflexivity).
+             rewrite Henc. cbn [bind].
+             destruct (enc_adds encT res (common ++ extra_enc) data) as [rest_p|] eqn:Er; [|discriminate]. cbn [bind].
+             intros H. cbn [length Nat.ltb Nat.leb orb] in H.
+             assert (processed = None :: rest_p) by congruence. subst processed. cbn [enc_open_types].
+             intros Hb. cbn [map app is_some dec_adds negb tl]. apply (IH _ _ _ _ _ _ Hx Er Hb).
+          -- assert (Henc : enc_member encT res m data true = Ok []) by (unfold enc_member; rewrite Elk, Eo; reflexivity).
+             rewrite Henc. cbn [bind].
+             destruct (enc_adds encT res (common ++ extra_enc) data) as [rest_p|] eqn:Er; [|discriminate]. cbn [bind].
+             intros H. cbn [length Nat.ltb Nat.leb orb] in H.
+             assert (processed = None :: rest_p) by congruence. subst processed. cbn [enc_open_types].
+             intros Hb. cbn [map app is_some dec_adds negb tl]. apply (IH _ _ _ _ _ _ Hx Er Hb).
   Qed.
 
   Lemma enc_adds_length adds data : forall processed,
@@ -1061,11 +1119,22 @@ Section CompositeRT.
   Proof.
     induction adds as [|[isgroup ms] adds IH]; intros processed; cbn [enc_adds].
     - intros H. assert (processed = []) by congruence. subst. cbn. lia.
-    - match goal with |- match ?one with _ => _ end = _ -> _ => destruct one as [[bs np]|x] end.
-      + destruct (enc_adds encT res adds data) as [rest_p|]; [|discriminate]. cbn [bind]. intros H.
-        assert (processed = (if (0 <? length bs)%nat || np then Some bs else None) :: rest_p) by congruence.
-        subst. cbn [length]. specialize (IH _ eq_refl). lia.
-      + destruct x; try discriminate. intros H. assert (processed = []) by congruence. subst. cbn. lia.
+    - assert (Hstop : Ok [] = Ok processed -> (length processed <= length ((isgroup, ms) :: adds))%nat).
+      { intros H. assert (processed = []) by congruence. subst. cbn. lia. }
+      assert (Hcons : forall (bs : bits) (c : bool),
+                 (let* bs0 := Ok bs in let* rest0 := enc_adds encT res adds data in
+                  Ok ((if c then Some bs0 else None) :: rest0)) = Ok processed ->
+                 (length processed <= length ((isgroup, ms) :: adds))%nat).
+      { intros bs c. cbn [bind]. destruct (enc_adds encT res adds data) as [rest_p|]; [|discriminate]. cbn [bind].
+        intros H. assert (processed = (if c then Some bs else None) :: rest_p) by congruence. subst.
+        specialize (IH _ eq_refl). simpl length. clear Hstop H. apply le_n_S. exact IH. }
+      destruct isgroup.
+      + destruct (group_missing_first encT res ms data); [exact Hstop|].
+        destruct (enc_group encT res ms data) as [bs|x]; [|discriminate]. apply Hcons.
+      + destruct ms as [|m [|m' ms']]; try discriminate.
+        destruct (lookup (m_name m) data) as [v|]; destruct (m_opt m);
+          try exact Hstop;
+          (destruct (enc_member encT res m data true) as [bs|x]; [|discriminate]; apply Hcons).
   Qed.
 
   Lemma to_bits_9_len n : 65 <= n <= 127 -> to_bits 9 (Z.lor 256 n) = true :: false :: to_bits 7 n.
@@ -1091,77 +1160,113 @@ Section CompositeRT.
       apply read_uint_app. change (2 ^ Z.of_nat 7) with 128. lia.
   Qed.
 
-  Lemma dec_additions_rt adds data abits rest :
-    (1 <= length adds)%nat ->
-    enc_additions encT res adds data = Ok (Some abits) ->
-    dec_additions decT adds (abits ++ rest) = Ok (norm_adds adds data, rest).
+  Lemma norm_adds_none_gen common data : forall extra processed,
+    enc_adds encT res (common ++ extra) data = Ok processed -> existsb is_some processed = false ->
+    norm_adds common data = [].
   Proof.
-    intros Hne. unfold enc_additions, dec_additions.
-    destruct (enc_adds encT res adds data) as [processed|] eqn:Ep; [|discriminate]. cbn [bind].
-    destruct (negb (existsb is_some processed)); [discriminate|].
-    destruct (enc_small_len (Z.of_nat (length adds))) as [l|] eqn:El; [|discriminate]. cbn [bind].
-    destruct (enc_open_types processed) as [body|] eqn:Eb; [|discriminate]. cbn [bind]. intros H.
-    pose proof (enc_adds_length _ _ _ Ep) as Hlen.
-    set (pres := map is_some processed ++ repeat false (length adds - length processed)) in *.
-    assert (abits = l ++ pres ++ body) by congruence. subst abits.
-    assert (Hn1 : 1 <= Z.of_nat (length adds)) by lia.
-    unfold rbind at 1. rewrite <- app_assoc. rewrite (read_small_len_rt _ _ _ Hn1 El).
-    assert (Hpl : length pres = length adds).
-    { unfold pres. rewrite app_length, map_length, repeat_length. lia. }
-    unfold rbind at 1. rewrite Nat2Z.id. rewrite <- Hpl at 1. rewrite <- app_assoc. rewrite read_raw_app.
-    unfold pres. apply (dec_adds_rt _ _ _ _ _ _ Ep Eb).
-  Qed.
-
-  Lemma norm_adds_none adds data : forall processed,
-    enc_adds encT res adds data = Ok processed -> existsb is_some processed = false -> norm_adds adds data = [].
-  Proof.
-    induction adds as [|[isgroup ms] adds IH]; intros processed; cbn [enc_adds norm_adds]; [reflexivity|].
+    induction common as [|[isgroup ms] common IH]; intros extra processed; cbn [app enc_adds norm_adds]; [reflexivity|].
     destruct isgroup.
-    - destruct (enc_group encT res ms data) as [bs|x]; cbn [bind]; [|reflexivity].
-      destruct (enc_adds encT res adds data) as [rest_p|]; [|discriminate]. cbn [bind]. intros H.
-      rewrite Bool.orb_false_r in H. destruct (0 <? length bs)%nat.
+    - destruct (group_missing_first encT res ms data); [reflexivity|].
+      destruct (enc_group encT res ms data) as [bs|x]; cbn [bind]; [|reflexivity].
+      destruct (enc_adds encT res (common ++ extra) data) as [rest_p|] eqn:Er; [|discriminate]. cbn [bind]. intros H.
+      destruct (0 <? length bs)%nat.
       + assert (processed = Some bs :: rest_p) by congruence. subst. cbn. discriminate.
       + assert (processed = None :: rest_p) by congruence. subst. cbn [existsb is_some orb]. intros He.
-        cbn [app]. apply (IH _ eq_refl He).
+        cbn [app]. apply (IH _ _ Er He).
     - destruct ms as [|m [|m' ms']]; try reflexivity.
-      destruct (enc_member encT res m data true) as [bs|x]; cbn [bind]; [|reflexivity].
-      destruct (enc_adds encT res adds data) as [rest_p|]; [|discriminate]. cbn [bind]. intros H.
-      destruct (lookup (m_name m) data) as [v|].
-      + rewrite Bool.orb_true_r in H. assert (processed = Some bs :: rest_p) by congruence. subst. cbn. discriminate.
-      + rewrite Bool.orb_false_r in H. destruct (0 <? length bs)%nat.
-        * assert (processed = Some bs :: rest_p) by congruence. subst. cbn. discriminate.
-        * assert (processed = None :: rest_p) by congruence. subst. cbn [existsb is_some orb]. intros He.
-          cbn [app]. apply (IH _ eq_refl He).
+      assert (Hmain : forall found,
+                 (found = lookup (m_name m) data) ->
+                 (let* bs := enc_member encT res m data true in
+                  let* rest0 := enc_adds encT res (common ++ extra) data in
+                  Ok ((if (0 <? length bs)%nat || match found with Some _ => true | None => false end
+                       then Some bs else None) :: rest0)) = Ok processed ->
+                 existsb is_some processed = false ->
+                 match enc_member encT res m data true with
+                 | Ok _ => (match found with Some v => [(m_name m, normT (m_ty m) v)] | None => [] end) ++ norm_adds common data
+                 | Err _ => []
+                 end = []).
+      { intros found Hf. destruct (enc_member encT res m data true) as [bs|x]; cbn [bind]; [|reflexivity].
+        destruct (enc_adds encT res (common ++ extra) data) as [rest_p|] eqn:Er; [|discriminate]. cbn [bind]. intros H.
+        destruct found as [v|].
+        - rewrite Bool.orb_true_r in H. assert (processed = Some bs :: rest_p) by congruence. subst. cbn. discriminate.
+        - rewrite Bool.orb_false_r in H. destruct (0 <? length bs)%nat.
+          + assert (processed = Some bs :: rest_p) by congruence. subst. cbn. discriminate.
+          + assert (processed = None :: rest_p) by congruence. subst. cbn [existsb is_some orb]. intros He.
+            cbn [app]. apply (IH _ _ Er He). }
+      destruct (lookup (m_name m) data) as [v|] eqn:Elk; destruct (m_opt m); try reflexivity;
+        try (apply (Hmain (Some v)); reflexivity); apply (Hmain None); reflexivity.
+  Qed.
+
+  Lemma dec_additions_compat common extra_enc extra_dec data abits rest :
+    extra_enc = [] \/ extra_dec = [] ->
+    (1 <= length (common ++ extra_enc))%nat ->
+    enc_additions encT res (common ++ extra_enc) data = Ok (Some abits) ->
+    dec_additions decT (common ++ extra_dec) (abits ++ rest) = Ok (norm_adds common data, rest).
+  Proof.
+    intros Hx Hne. unfold enc_additions, dec_additions.
+    destruct (enc_adds encT res (common ++ extra_enc) data) as [processed|] eqn:Ep; [|discriminate]. cbn [bind].
+    destruct (negb (existsb is_some processed)); [discriminate|].
+    destruct (enc_small_len (Z.of_nat (length (common ++ extra_enc)))) as [l|] eqn:El; [|discriminate]. cbn [bind].
+    destruct (enc_open_types processed) as [body|] eqn:Eb; [|discriminate]. cbn [bind]. intros H.
+    pose proof (enc_adds_length _ _ _ Ep) as Hlen.
+    set (pres := map is_some processed ++ repeat false (length (common ++ extra_enc) - length processed)) in *.
+    assert (abits = l ++ pres ++ body) by congruence. subst abits.
+    assert (Hn1 : 1 <= Z.of_nat (length (common ++ extra_enc))) by lia.
+    unfold rbind at 1. rewrite <- app_assoc. rewrite (read_small_len_rt _ _ _ Hn1 El).
+    assert (Hpl : length pres = length (common ++ extra_enc)).
+    { unfold pres. rewrite app_length, map_length, repeat_length. lia. }
+    unfold rbind at 1. rewrite Nat2Z.id. rewrite <- Hpl at 1. rewrite <- app_assoc. rewrite read_raw_app.
+    unfold pres. apply (dec_adds_compat _ _ _ _ _ _ _ _ Hx Ep Eb).
   Qed.
 
   Definition norm_seq (root : list (member_of ty)) (ext : option (list (addition_of ty)))
              (data : list (string * value)) : value :=
     VSeq (norm_members root data ++ match ext with Some adds => norm_adds adds data | None => [] end).
 
+  (** SEQUENCE/SET: encoder knows [common ++ extra_enc], decoder [common ++ extra_dec] *)
+  Lemma dec_seq_compat root common extra_enc extra_dec data bs rest :
+    extra_enc = [] \/ extra_dec = [] ->
+    enc_seq encT res root (Some (common ++ extra_enc)) (VSeq data) = Ok bs ->
+    dec_seq decT root (Some (common ++ extra_dec)) (bs ++ rest)
+    = Ok (VSeq (norm_members root data ++ norm_adds common data), rest).
+  Proof.
+    intros Hx. unfold enc_seq, dec_seq.
+    destruct (enc_root encT res root data) as [r|] eqn:Er; [|discriminate]. cbn [bind].
+    assert (Hfalse : forall processed,
+               enc_adds encT res (common ++ extra_enc) data = Ok processed -> existsb is_some processed = false ->
+               (do* b <- read_bit; do* fs <- dec_root decT root;
+                if b then do* more <- dec_additions decT (common ++ extra_dec); rret (VSeq (fs ++ more))
+                else rret (VSeq fs)) ((false :: r) ++ rest)
+               = Ok (VSeq (norm_members root data ++ norm_adds common data), rest)).
+    { intros processed Hp He. cbn [app]. unfold rbind at 1. cbn [read_bit]. unfold rbind.
+      rewrite (dec_root_rt _ _ _ _ Er).
+      rewrite (norm_adds_none_gen _ _ _ _ Hp He), app_nil_r. reflexivity. }
+    destruct (common ++ extra_enc) as [|a l] eqn:Eadds.
+    - intros H. assert (bs = false :: r) by congruence. subst bs.
+      apply (Hfalse []); reflexivity.
+    - destruct (enc_additions encT res (a :: l) data) as [[abits|]|] eqn:Ea; [| |discriminate]; cbn [bind].
+      + intros H. assert (bs = true :: r ++ abits) by congruence. subst bs. cbn [app]. unfold rbind at 1. cbn [read_bit].
+        unfold rbind. rewrite <- app_assoc. rewrite (dec_root_rt _ _ _ _ Er).
+        rewrite <- Eadds in Ea.
+        assert (Hne : (1 <= length (common ++ extra_enc))%nat) by (rewrite Eadds; cbn [length]; lia).
+        rewrite (dec_additions_compat _ _ _ _ _ _ Hx Hne Ea). reflexivity.
+      + intros H. assert (bs = false :: r) by congruence. subst bs.
+        unfold enc_additions in Ea.
+        destruct (enc_adds encT res (a :: l) data) as [processed|] eqn:Ep; [|discriminate]. cbn [bind] in Ea.
+        destruct (existsb is_some processed) eqn:Ee; cbn [negb] in Ea.
+        * destruct (enc_small_len (Z.of_nat (length (a :: l)))); [|discriminate]. cbn [bind] in Ea.
+          destruct (enc_open_types processed); discriminate.
+        * apply (Hfalse processed); auto.
+  Qed.
+
   Lemma dec_seq_rt root ext data bs rest :
     enc_seq encT res root ext (VSeq data) = Ok bs ->
     dec_seq decT root ext (bs ++ rest) = Ok (norm_seq root ext data, rest).
   Proof.
-    unfold enc_seq, dec_seq, norm_seq. destruct ext as [adds|].
-    - destruct (enc_root encT res root data) as [r|] eqn:Er; [|discriminate]. cbn [bind].
-      destruct adds as [|a adds'].
-      + intros H. assert (bs = false :: r) by congruence. subst bs. cbn [app]. unfold rbind at 1. cbn [read_bit].
-        unfold rbind. rewrite (dec_root_rt _ _ _ _ Er). cbn [norm_adds]. rewrite app_nil_r. reflexivity.
-      + destruct (enc_additions encT res (a :: adds') data) as [[abits|]|] eqn:Ea; [| |discriminate]; cbn [bind].
-        * intros H. assert (bs = true :: r ++ abits) by congruence. subst bs. cbn [app]. unfold rbind at 1. cbn [read_bit].
-          unfold rbind. rewrite <- app_assoc. rewrite (dec_root_rt _ _ _ _ Er).
-          assert (Hne : (1 <= length (a :: adds'))%nat) by (cbn [length]; lia).
-          rewrite (dec_additions_rt _ _ _ _ Hne Ea). reflexivity.
-        * intros H. assert (bs = false :: r) by congruence. subst bs. cbn [app]. unfold rbind at 1. cbn [read_bit].
-          unfold rbind. rewrite (dec_root_rt _ _ _ _ Er).
-          assert (Hn : norm_adds (a :: adds') data = []).
-          { unfold enc_additions in Ea. destruct (enc_adds encT res (a :: adds') data) as [processed|] eqn:Ep; [|discriminate].
-            cbn [bind] in Ea. destruct (existsb is_some processed) eqn:Ee; cbn [negb] in Ea.
-            - destruct (enc_small_len (Z.of_nat (length (a :: adds')))); [|discriminate]. cbn [bind] in Ea.
-              destruct (enc_open_types processed); discriminate.
-            - eapply norm_adds_none; eauto. }
-          rewrite Hn, app_nil_r. reflexivity.
-    - intros H. unfold rbind. rewrite (dec_root_rt _ _ _ _ H). rewrite app_nil_r. reflexivity.
+    unfold norm_seq. destruct ext as [adds|].
+    - intros H. rewrite <- (app_nil_r adds) in H. rewrite <- (app_nil_r adds) at 1.
+      apply (dec_seq_compat root adds [] [] data bs rest (or_introl eq_refl) H).
+    - unfold enc_seq, dec_seq. intros H. unfold rbind. rewrite (dec_root_rt _ _ _ _ H). rewrite app_nil_r. reflexivity.
   Qed.
 End CompositeRT.
 
